@@ -179,6 +179,26 @@ Definition count_wclose (evs : list wsev) : nat := length (filter is_wclose evs)
 Definition is_wopen (i : wsin) : bool := match i with WOpen _ => true | _ => false end.
 
 (* ------------------------------------------------------------------------------------------------------------- *)
+(* What a decodable payload is, as far as a transport is concerned (small spec written from the WAMP message format,  *)
+(* not from Serializer.unserialize): a message is a NON-EMPTY LIST whose first element is an INTEGER type code that   *)
+(* names a message class, and whose remaining fields that class accepts.  Booleans, floats, strings, null, ... are    *)
+(* not integers, whatever the host language's subtyping says.                                                         *)
+(* ------------------------------------------------------------------------------------------------------------- *)
+Inductive tcode := TInt (z : Z) | TBool (b : bool) | TFloat | TStr | TNull | TBytes | TList | TDict.
+Inductive raw :=
+| RNotList                              (* the payload decodes to something that is not a list *)
+| REmptyList
+| RMsg (t : tcode) (fields_ok : bool).  (* first element, and whether the message class accepts the rest (oracle) *)
+Definition envelope_ok (r : raw) : bool :=
+  match r with
+  | RMsg (TInt z) ok => (0 <=? z)%Z && memN (Z.to_N z) gen_wamp_type_codes && ok
+  | _ => false
+  end.
+(* the frame class the transports see: a one-message batch if the envelope is acceptable, a protocol violation otherwise *)
+Definition classify (r : raw) (id : N) (re : reaction) : fclass :=
+  if envelope_ok r then Batch [(id, re)] else Undecodable.
+
+(* ------------------------------------------------------------------------------------------------------------- *)
 (* asyncio/websocket.py WebSocketAdapterProtocol: the receive queue between the asyncio transport and the engine   *)
 (* ------------------------------------------------------------------------------------------------------------- *)
 (* data_received(data): self.receive_queue.<push>(data); wake the waiter.   The waiter callback runs in a LATER loop
